@@ -190,16 +190,23 @@ def check(ctx, run):
         run.ob("R3", "%s relinks the list once after permuting the array" % fn_.name, fn_.site, ok,
                what="" if ok else "the linked list the registry walks is not rebuilt from the permuted array: tests are lost or duplicated")
     rv = prog.fn(ARR + "::reverse")
-    swc = [c for c in rv.calls() if prog.callee_name(rv, c) == ARR + "::swap"]
-    ini = {k: render(rv, v) for k, v in local_inits(rv).items()}
-    ok = len(swc) == 1
-    if ok:
-        i_, j_ = [render(rv, x) for x in rv.args(swc[0])]
-        hd, _ = loop_head_and_body(rv, lambda k: i_ in k)
-        cond = atom(rv, rv.nodes[hd["cond"]]) if hd else None
-        bound = cond[0][len("(%s < " % i_):-1] if cond and cond[0].startswith("(%s < " % i_) and cond[1] else None
-        ok = ini.get(i_) == "0" and ini.get(j_) == "((count_ - %s) - 1)" % i_ and bound is not None and (ini.get(bound) == "(count_ / 2)" or bound == "(count_ / 2)")
-    run.ob("R3", "reverse: i in [0, count_/2), j = count_ - i - 1, swap(i, j)", rv.site, ok, witness=ini)
+    bad = None
+    for n in range(0, 7):
+        swaps, relinks = [], []
+        ev = Evaluator(prog, rv, env={"count_": n}, calls={ARR + "::swap": lambda *a_: (swaps.append(a_[-2:]), 0)[1], ARR + "::relinkTestsInOrder": lambda *a_: (relinks.append(len(swaps)), 0)[1]})
+        try:
+            ev.run_blocks(rv.entry, max_steps=600)
+        except Unknown as u:
+            run.broke("C02.R3: reverse cannot be folded: %s" % u)
+            break
+        arr = list(range(n))
+        oob = [x for x in swaps if not (0 <= x[0] < max(n, 1) and 0 <= x[1] < max(n, 1))]
+        for i_, j_ in swaps:
+            if not oob:
+                arr[i_], arr[j_] = arr[j_], arr[i_]
+        if (oob or arr != list(range(n))[::-1] or (n > 0 and relinks != [len(swaps)])) and bad is None:
+            bad = "%d entries: swaps %s give %s (relinked after %s swaps)" % (n, swaps, arr, relinks)
+    run.ob("R3", "reverse folded for 0..6 entries: in-range swaps that produce the reversed array, list relinked once afterwards", rv.site, bad is None, witness=bad or "7 sizes", what=bad or "")
     rl = prog.fn(ARR + "::relinkTestsInOrder")
     run.analysed(rl)
     for n in range(0, 5):
@@ -244,18 +251,26 @@ def check(ctx, run):
         run.ob("R3", "%s permutes an array built from the current list and stores its first test back" % nm, f.site, ok, witness={"calls": seq, "assign": asg})
     ct = [f for f in prog.methods_of(ARR) if f.kind == "ctor"][0]
     run.analysed(ct)
-    ini = {k: render(ct, v) for k, v in local_inits(ct).items()}
-    asg = [(l, render(ct, r)) for l, r, n in assignments(ct)]
-    hd, _ = loop_head_and_body(ct, lambda k: "count_" in k and "<" in k)
-    cond = atom(ct, ct.nodes[hd["cond"]]) if hd else None
-    fp = ct.params[0]["name"]
-    ok = cond is not None and cond[1] and re.match(r"^\((\w+) < count_\)$", cond[0]) is not None
-    if ok:
-        iv = re.match(r"^\((\w+) < count_\)$", cond[0]).group(1)
-        cur = [k for k, v in ini.items() if v == fp]
-        ok = ini.get(iv) == "0" and len(cur) == 1 and ("arrayOfTests_[%s]" % iv, cur[0]) in asg and (cur[0], "%s->getNext()" % cur[0]) in asg \
-            and any(l == "count_" and "countTests()" in r for l, r in asg)
-    run.ob("R3", "the array is filled with every list element once: count_ = countTests(), entry i = i-th element", ct.site, ok, witness={"init": ini, "assign": asg})
+    bad = None
+    for n in range(0, 5):
+        ids = [100 + k for k in range(n)]
+        ev = Evaluator(prog, ct, env={ct.params[0]["name"]: ids[0] if n else 0, "arrayOfTests_": 0, "count_": 0},
+                       calls={"UtestShell::countTests": lambda o, n=n: n, "UtestShell::getNext": lambda o, ids=ids: (ids[ids.index(o) + 1] if o in ids and ids.index(o) + 1 < len(ids) else 0)})
+        ev.pass_object = True
+        try:
+            for i in ct.d.get("inits", []):
+                if i.get("field") in ("arrayOfTests_", "count_") and i.get("written"):
+                    ev.env[i["field"]] = ev.ev(i["expr"])
+            ev.run_blocks(ct.entry, max_steps=600)
+        except Unknown as u:
+            run.broke("C02.R3: the array constructor cannot be folded: %s" % u)
+            break
+        base = ev.env.get("arrayOfTests_")
+        got = [ev.env.get("%s[%d]" % (base[1], base[2] + k)) for k in range(n)] if isinstance(base, tuple) else []
+        extra = [k_ for k_, v_ in ev.stores if isinstance(base, tuple) and k_.startswith(base[1] + "[") and not (0 <= int(k_[len(base[1]) + 1:-1]) < n)]
+        if (ev.env.get("count_") != n or got != ids or extra or (n == 0 and base not in (0, None))) and bad is None:
+            bad = "list of %d tests: count_ = %s, entries %s (expected %s), writes outside the array %s" % (n, ev.env.get("count_"), got, ids, extra)
+    run.ob("R3", "the array constructor folded on lists of 0..4 tests: count_ = countTests(), entry i = i-th element, no write outside the array", ct.site, bad is None, witness=bad or "5 lists", what=bad or "")
 
     group_balance(prog, run, "R4")
 
